@@ -140,9 +140,19 @@ fn build(k: &mut Knobs, obs: &mut Obs, allow_invalid: bool) -> Built {
     }
     // the tokenizer is chosen last (a later dial picks among case-dependent expressions); setters are independent
     let tk = choose_tk(primary, hist, k.pick(4), allow_invalid);
+    // one case in three: the builder is checked once (with the default expression still in place) before the custom
+    // expression is set - a parameter set with a history, whose restored copy must still refit like the original
+    let checked_first = k.pick(3) == 2;
     match tk {
         Tk::DefaultRegex => {}
-        Tk::Regex(r) => p = p.tokenizer(Tokenizer::Regex(r.to_string())),
+        Tk::Regex(r) => {
+            if checked_first {
+                use linfa::ParamGuard;
+                let _ = p.check_ref();
+                obs.class("regex_set_after_an_earlier_check");
+            }
+            p = p.tokenizer(Tokenizer::Regex(r.to_string()))
+        }
         Tk::Function => p = p.tokenizer(Tokenizer::Function(tok)),
         Tk::FunctionThenRegex => p = p.tokenizer(Tokenizer::Function(tok)).tokenizer(Tokenizer::Regex(r"\w+".to_string())),
     }
@@ -498,9 +508,19 @@ fn tfidf_builder(k: &mut Knobs, obs: &mut Obs, allow_invalid: bool) -> (TfIdfVec
     }
     // the tokenizer is chosen last (a later dial picks among case-dependent expressions); setters are independent
     let tk = choose_tk(primary, hist, k.pick(4), allow_invalid);
+    // one case in three: the builder is checked once (with the default expression still in place) before the custom
+    // expression is set - a parameter set with a history, whose restored copy must still refit like the original
+    let checked_first = k.pick(3) == 2;
     match tk {
         Tk::DefaultRegex => {}
-        Tk::Regex(r) => p = p.tokenizer(Tokenizer::Regex(r.to_string())),
+        Tk::Regex(r) => {
+            if checked_first {
+                use linfa::ParamGuard;
+                let _ = p.fit(&ndarray::array!["ab cd".to_string(), "cd".to_string()]);
+                obs.class("regex_set_after_an_earlier_check");
+            }
+            p = p.tokenizer(Tokenizer::Regex(r.to_string()))
+        }
         Tk::Function => p = p.tokenizer(Tokenizer::Function(tok)),
         Tk::FunctionThenRegex => p = p.tokenizer(Tokenizer::Function(tok)).tokenizer(Tokenizer::Regex(r"\w+".to_string())),
     }
